@@ -12,7 +12,9 @@
 From Coq Require Import List NArith.
 From Coq Require Import Init.Byte.
 Import ListNotations.
+From Coq Require Import Permutation.
 From Onet Require Import Net.Frame Net.Marshal Net.WireProofs Corr.C03 Net.WireCheck.
+From Onet Require Import Net.SendConc Net.SendConcProofs.
 Local Open Scope N_scope.
 
 (* -- framing: any segmentation, order, no loss, no duplication --------------- *)
@@ -227,6 +229,135 @@ Theorem c03_local_fifo :
   map (envelope_of V T type_of tid_of) vs.
 Proof. exact local_fifo. Qed.
 Print Assumptions c03_local_fifo.
+
+(* -- goroutines sending concurrently on one connection (Net/SendConc.v) ---------------------------
+   A small-step system: one action = Lock, Marshal, the header Write, ONE Write
+   call of the body loop taking any number of bytes the schedule chooses, the
+   counter update, Unlock.  [run msh true sched (init progs) = Some s]: the
+   schedule [sched] (any interleaving, any chunking) is executable with the
+   mutex from the state in which goroutine i still has to send [progs i]. *)
+
+(* (1) general form, every reachable state, failures included: the wire is the
+   bytes of the finished calls in the order in which they held the lock, then
+   the bytes of the call in progress; a call that returned nil wrote exactly
+   one frame, a call that returned an error a strict prefix of its frame;
+   Tx is the sum of what the calls returned; program order per goroutine *)
+Theorem c03_concurrent_senders_wire :
+  forall (V : Type) (msh : V -> option bytes) progs sched (s : state V),
+  run msh true sched (init progs) = Some s ->
+  wire s = concat (map c_bytes (done s)) ++ held V s (fun _ p => cur_w V p) [] /\
+  acq s = map (key V) (done s) ++ held V s (cur_call V) [] /\
+  tx s = sumN (map c_ret (done s)) + held V s (fun _ p => cur_tx V p) 0 /\
+  Forall (fun c => call_ok msh (c_val c) (c_bytes c) (c_ret c) (c_ok c)) (done s) /\
+  (forall i, proj i (acq s) ++ todo (thr s i) = progs i).
+Proof. exact mutex_pieces. Qed.
+Print Assumptions c03_concurrent_senders_wire.
+
+(* (1) no Write fails, nobody is inside Send: the wire is whole frames, one per
+   call, in lock-acquisition order; Tx = sum of the frame sizes *)
+Theorem c03_concurrent_senders_stream :
+  forall (V : Type) (msh : V -> option bytes) (good : V -> Prop) progs sched (s : state V),
+  small_bufs msh -> (forall i v, In v (progs i) -> good v) -> (forall v, good v -> msh v <> None) ->
+  forallb (fun ia => negb (is_fail (snd ia))) sched = true ->
+  run msh true sched (init progs) = Some s -> holder s = None ->
+  exists bs,
+    Forall2 (fun kv b => msh (snd kv) = Some b) (acq s) bs /\
+    wire s = stream bs /\
+    tx s = sumN (map (fun b => 4 + lenN b) bs) /\
+    (forall i, proj i (acq s) ++ todo (thr s i) = progs i).
+Proof. exact mutex_stream. Qed.
+Print Assumptions c03_concurrent_senders_stream.
+
+(* program order and multiset, with or without the mutex: when every goroutine
+   is through, the calls are each goroutine's program in its order and together
+   a permutation of everything there was to send *)
+Theorem c03_concurrent_senders_merge :
+  forall (V : Type) (msh : V -> option bytes) progs sched mx (s : state V) k,
+  (forall i, (k <= i)%nat -> progs i = []) ->
+  run msh mx sched (init progs) = Some s -> (forall i, todo (thr s i) = []) ->
+  (forall i, proj i (acq s) = progs i) /\
+  Permutation (map snd (acq s)) (concat (map progs (seq 0 k))).
+Proof. exact finished_is_merge. Qed.
+Print Assumptions c03_concurrent_senders_merge.
+
+(* (2) with the mutex: k goroutines, any programs, any interleaving and
+   chunking, any segmentation in transit: the receiver dispatches exactly the
+   values sent, each once, in lock order, each goroutine's in its order *)
+Theorem c03_concurrent_senders_delivery :
+  forall (V T : Type) (type_of : V -> T) (tid_of : T -> bytes) (registry : bytes -> option T)
+         (enc : V -> option bytes) (dec : T -> bytes -> option V)
+         progs k sched (s : state V) fix_f04 limit segs,
+  tid_16 T tid_of -> codec_roundtrip V T type_of enc dec ->
+  limit < 4294967296 ->
+  (forall i, (k <= i)%nat -> progs i = []) ->
+  (forall i v, In v (progs i) -> sendable V T type_of tid_of registry enc limit v) ->
+  no_fail sched = true ->
+  run (marshal type_of tid_of registry enc) true sched (init progs) = Some s ->
+  (forall i, todo (thr s i) = []) -> holder s = None ->
+  concat segs = wire s ->
+  handle_all registry dec fix_f04 limit segs =
+    (map (envelope_of V T type_of tid_of) (map snd (acq s)), FinEnd false) /\
+  (forall i, proj i (acq s) = progs i) /\
+  Permutation (map snd (acq s)) (concat (map progs (seq 0 k))) /\
+  exists bs, Forall2 (fun v b => marshal type_of tid_of registry enc v = Some b) (map snd (acq s)) bs /\
+             tx s = sumN (map (fun b => 4 + lenN b) bs).
+Proof. exact mutex_delivery. Qed.
+Print Assumptions c03_concurrent_senders_delivery.
+
+(* (3) the code without the two sendMutex lines: a two-goroutine schedule in
+   which both Send calls return nil and the receiver dispatches neither message *)
+Theorem c03_concurrent_senders_nomutex_refuted :
+  exists s,
+    ConcWitness.final false ConcWitness.sched_nomutex = Some s /\
+    (forall i, todo (thr s i) = []) /\ (forall c, In c (done s) -> c_ok c = true) /\
+    tx s = 42 /\
+    Witness.w_handle false Witness.limit [wire s] = ([], FinEnd true) /\
+    fst (recv_all false Witness.limit [wire s]) <> map EvFrame [Witness.m x41; Witness.m x42] /\
+    fst (recv_all false Witness.limit [wire s]) <> map EvFrame [Witness.m x42; Witness.m x41] /\
+    Witness.w_handle true Witness.limit [wire s] = ([], FinClosed).
+Proof. exact nomutex_refuted. Qed.
+Print Assumptions c03_concurrent_senders_nomutex_refuted.
+
+(* (4) a Write fails part-way in one call and nothing follows on the connection:
+   the calls in front are dispatched, nothing of the broken frame is, the
+   receiver ends inside a header / body (EOF or read deadline) *)
+Theorem c03_concurrent_senders_failure_last :
+  forall (V T : Type) (type_of : V -> T) (tid_of : T -> bytes) (registry : bytes -> option T)
+         (enc : V -> option bytes) (dec : T -> bytes -> option V)
+         progs sched (s : state V) fix_f04 limit segs cs c b,
+  limit < 4294967296 ->
+  (forall v b, marshal type_of tid_of registry enc v = Some b -> lenN b <= limit) ->
+  run (marshal type_of tid_of registry enc) true sched (init progs) = Some s -> holder s = None ->
+  done s = cs ++ [c] -> (forall c', In c' cs -> c_ok c' = true) -> c_ok c = false ->
+  marshal type_of tid_of registry enc (c_val c) = Some b ->
+  concat segs = wire s ->
+  exists bs m,
+    Forall2 (fun kv b => marshal type_of tid_of registry enc (snd kv) = Some b) (map (key V) cs) bs /\
+    c_bytes c = takeN m (header b ++ b) /\ m < 4 + lenN b /\ c_ret c <= m /\
+    handle_all registry dec fix_f04 limit segs =
+      (local_handle registry dec bs, FinEnd (negb (m =? 0))).
+Proof. exact mutex_failure_last. Qed.
+Print Assumptions c03_concurrent_senders_failure_last.
+
+(* (4) ... but Send leaves the connection usable after the failure: the next
+   Send on it returns nil and its message is never dispatched *)
+Theorem c03_concurrent_senders_failure_refuted :
+  exists s c0 c1,
+    ConcWitness.final true ConcWitness.sched_failure = Some s /\ done s = [c0; c1] /\
+    c_who c0 = 0%nat /\ c_ok c0 = false /\ c_ret c0 = 4 /\
+    c_who c1 = 1%nat /\ c_ok c1 = true /\ c_bytes c1 = send_raw (Witness.m x42) /\
+    Witness.w_handle false Witness.limit [wire s] = ([], FinEnd true) /\
+    Witness.w_handle true Witness.limit [wire s] = ([], FinClosed).
+Proof. exact failure_then_send_refuted. Qed.
+Print Assumptions c03_concurrent_senders_failure_refuted.
+
+Example c03_concurrent_senders_example :
+  ConcWitness.final true ConcWitness.sched_nomutex = None /\
+  exists s, ConcWitness.final true (whole_send 1 17 ++ whole_send 0 17) = Some s /\
+            Witness.w_handle false Witness.limit [wire s] =
+              ([(Witness.id0, [x42]); (Witness.id0, [x41])], FinEnd false).
+Proof. exact mutex_same_schedule_blocked. Qed.
+Print Assumptions c03_concurrent_senders_example.
 
 (* -- the checker run on every observation decides the property ---------------------------------- *)
 
